@@ -6,6 +6,7 @@ CONSTANTS
   MaxCtx = 255
   MaxBi = 255
   MaxVars = 1000000
+  Progs = {0}
   GrowSteps = 6
   Texts = {}
   Outcomes = {}
